@@ -1,6 +1,17 @@
 // Package c20 decides property C20 "MCP tools are role-, flag- and principal-gated, confined and audited"
 // by exhaustive enumeration of the complete finite gating table through the real JSON-RPC entry point
 // (mcp.NewServer(...).Serve with framed initialize / tools/list / tools/call messages).
+//
+// Files: ref_test.go (reference table + allow/deny predicate, written from the documentation),
+// fixture_test.go (scratch directory, queue db, admin stand-ins, child processes, JSON-RPC session),
+// check_test.go (arguments and variants, the per-case oracle, enumeration and reporting).
+//
+// Tiers: quick = the complete table (every tool name x role input x flags x principal) with side-effect probes,
+// repeated for every argument-shape variant of the tool (~12 000 sessions, ~10 s); thorough = quick plus more
+// unknown names and invalid role inputs, four environment states and a repeated call (~32 000 sessions, ~25 s).
+//
+// Debugging: VERIF_C20_DEBUG=<substring of a case key> prints one line per matching case;
+// bin/check C20 --replay /abs/path/replays/C20-….json re-runs the single case of a replay file.
 package c20
 
 import (
@@ -783,7 +794,8 @@ func TestCheck(t *testing.T) {
 	var (
 		mu           sync.Mutex
 		hashByArgs   = map[string]string{} // tool|args -> input_hash
-		argsByHash   = map[string]string{} // input_hash -> tool-independent args json
+		hashesOfTool = map[string]map[string]bool{}
+		argsOfTool   = map[string]map[string]bool{}
 		resultClass  = map[string]map[string]int{"denied": {}, "ran-ok": {}, "failed": {}}
 		effectSeen   = map[string]int{}
 		allowedRuns  = map[string]int{}
@@ -868,11 +880,11 @@ func TestCheck(t *testing.T) {
 						relational = append(relational, finding{"audit:input_hash:unstable", fmt.Sprintf("same arguments %s hashed to %s and %s", ak, prev, cr.InputHash)})
 					}
 					hashByArgs[ak] = cr.InputHash
-					hk := spec.Tool + "|" + cr.InputHash
-					if prev, ok := argsByHash[hk]; ok && prev != ak {
-						relational = append(relational, finding{"audit:input_hash:collision", fmt.Sprintf("different arguments %s and %s carry the same input_hash %s", prev, ak, cr.InputHash)})
+					if hashesOfTool[spec.Tool] == nil {
+						hashesOfTool[spec.Tool], argsOfTool[spec.Tool] = map[string]bool{}, map[string]bool{}
 					}
-					argsByHash[hk] = ak
+					hashesOfTool[spec.Tool][cr.InputHash] = true
+					argsOfTool[spec.Tool][cr.ArgsJSON] = true
 				}
 				if cr.Verdict == refAllow && !cr.Refused && known {
 					allowedRuns[spec.Tool]++
@@ -976,6 +988,12 @@ func TestCheck(t *testing.T) {
 	for _, f := range relational {
 		r.Violation(f.Key, f.Msg, nil, nil)
 	}
+	for tool, hs := range hashesOfTool {
+		// an input hash has to depend on the input: many different argument sets, one single hash value
+		if len(argsOfTool[tool]) >= 3 && len(hs) == 1 {
+			r.Violation("audit:input_hash:constant:"+tool, fmt.Sprintf("%d different argument sets of %s all carry the same input_hash", len(argsOfTool[tool]), tool), nil, nil)
+		}
+	}
 	for res := range resultClass["denied"] {
 		if resultClass["ran-ok"][res] > 0 {
 			r.Violation("audit:result:denied-equals-success:"+res, fmt.Sprintf("the audit result %q is written both for refused-by-gate calls and for successful calls", res), nil, nil)
@@ -1020,7 +1038,7 @@ func TestCheck(t *testing.T) {
 	r.Assume("reference table transcribed from docs/mcp.md, internal/mcp/spec.md, DESIGN.md 'Access Model' (cross-checked against the tree's docs at run time); 'refused' = JSON-RPC error or result.isError")
 	r.Assume("invalid role strings: the statement does not say whether they mean 'read' (documented default) or 'nothing'; both are accepted for read-level tools as long as tools/list and tools/call agree; anything above read must be refused")
 	r.Assume("queue backend sqlite in the table; admin-proxy mode (memory backend) only as a thorough-tier environment variant against a recording stand-in that answers 200 to everything (postgres is the same code path, not run); process effects are observed on harness-owned children (fake run binary = this test binary, signal-recording sleeper); admin health is an in-process loopback listener")
-	r.Assume("confinement is checked on the enumerated path/content alphabet, not on arbitrary strings; audit fields are checked for presence and plausibility (principal/role/tool equal the configuration, input_hash is a function of and injective on the arguments seen, result separates denied/failed from success), not for formatting")
+	r.Assume("confinement is checked on the enumerated path/content alphabet, not on arbitrary strings; audit fields are checked for presence and plausibility (principal/role/tool equal the configuration, input_hash is a function of the arguments and not constant over different arguments, result separates denied/failed from success), not for formatting")
 	r.Finish()
 }
 
